@@ -1081,6 +1081,27 @@ class Interp:
 
     # ---- calls ---------------------------------------------------------------------------------------------------
     def ev_Call(self, node, env):
+        # in-place growth of a local list: name.append(x) / name.extend(xs) / name.insert(0, x) re-binds the name to the longer
+        # list (lists are values here; a second name for the same list is not followed)
+        fn_ = node.func
+        if isinstance(fn_, ast.Attribute) and fn_.attr in ('append', 'extend', 'insert') and isinstance(fn_.value, ast.Name) and \
+                isinstance(env.get(fn_.value.id), ListV) and not node.keywords:
+            cur = env[fn_.value.id]
+            if sum(1 for v_ in env.values() if v_ is cur) > 1:
+                raise AnalysisError('T', f'in-place mutation of a list that has two names in {self.where()}')
+            vals = [self.ev(a, env) for a in node.args]
+            if fn_.attr == 'append' and len(vals) == 1:
+                env[fn_.value.id] = ListV(cur.items + (vals[0],), cur.filtered)
+                return NONE
+            if fn_.attr == 'extend' and len(vals) == 1 and isinstance(vals[0], (ListV, TupleV)):
+                env[fn_.value.id] = ListV(cur.items + tuple(vals[0].items), cur.filtered)
+                return NONE
+            if fn_.attr == 'insert' and len(vals) == 2 and isinstance(vals[0], Const) and isinstance(vals[0].value, int):
+                k = vals[0].value
+                items = list(cur.items)
+                items.insert(k, vals[1])
+                env[fn_.value.id] = ListV(tuple(items), cur.filtered)
+                return NONE
         f = self.ev(node.func, env)
         if isinstance(f, ClsV) and f.name == 'Cell':
             fields = ['title', 'column', 'row', 'value']
